@@ -110,7 +110,7 @@ def _pod_from_match(pod: str, m: RegexMatch) -> str:
 
 
 @rule(
-    r"(?P<mod_very>(sehr|very)\s+)?"
+    r"(?P<mod_very>\b(sehr|very)\s+)?"
     "((?P<mod_early>früh(e(r|n|m))?|early)"
     "|(?P<mod_late>(spät(e(r|n|m))?|late)))",
     predicate("isPOD"),
@@ -138,8 +138,8 @@ _pods = [
             "so spät wie möglich(er?)?)"
         ),
     ),
-    ("earlymorning", r"very early|sehr früh"),
-    ("lateevening", r"very late|sehr spät"),
+    ("earlymorning", r"\bvery early|\bsehr früh"),
+    ("lateevening", r"\bvery late|\bsehr spät"),
     ("morning", r"morning|morgend?s?|(in der )?frühe?|early"),
     ("forenoon", r"forenoon|vormittags?"),
     ("afternoon", r"afternoon|nachmittags?"),
@@ -213,8 +213,8 @@ def ruleToday(ts: datetime, _: RegexMatch) -> Time:
 
 
 @rule(
-    r"(genau\s*)?jetzt|diesen moment|in diesem moment|gerade eben|"
-    r"((just|right)\s*)?now|immediately"
+    r"(\bgenau\s*)?jetzt|diesen moment|in diesem moment|gerade eben|"
+    r"(\b(just|right)\s*)?now|immediately"
 )
 def ruleNow(ts: datetime, _: RegexMatch) -> Time:
     return Time(
@@ -509,7 +509,7 @@ def ruleHHOClock(ts: datetime, m: RegexMatch) -> Time:
     return Time(hour=int(m.match.group("hour")))
 
 
-@rule(r"(a |one )?quarter( to| till| before| of)|vie?rtel vor", predicate("isTOD"))
+@rule(r"(\b(a|one) )?quarter( to| till| before| of)|vie?rtel vor", predicate("isTOD"))
 def ruleQuarterBeforeHH(ts: datetime, _: RegexMatch, t: Time) -> Optional[Time]:
     # no quarter past hh:mm where mm is not 0 or missing
     if t.minute:
@@ -520,7 +520,7 @@ def ruleQuarterBeforeHH(ts: datetime, _: RegexMatch, t: Time) -> Optional[Time]:
         return Time(hour=23, minute=45)
 
 
-@rule(r"((a |one )?quarter( after| past)|vie?rtel nach)", predicate("isTOD"))
+@rule(r"((\b(a|one) )?quarter( after| past)|vie?rtel nach)", predicate("isTOD"))
 def ruleQuarterAfterHH(ts: datetime, _: RegexMatch, t: Time) -> Optional[Time]:
     if t.minute:
         return None
@@ -598,7 +598,7 @@ def rulePODDate(ts: datetime, pod: Time, d: Time) -> Time:
 
 
 @rule(
-    r"((?P<not>not |nicht )?(vor|before))|(bis )?spätestens( bis)?|bis|latest|(un)?til|no later than",
+    r"((?P<not>\b(not|nicht) )?(vor|before))|(bis )?spätestens( bis)?|bis|latest|(un)?til|no later than",
     dimension(Time),
 )
 def ruleBeforeTime(ts: datetime, r: RegexMatch, t: Time) -> Interval:
@@ -609,7 +609,7 @@ def ruleBeforeTime(ts: datetime, r: RegexMatch, t: Time) -> Interval:
 
 
 @rule(
-    r"((?P<not>not |nicht )?(nach|after))|(ab )?frühe?stens( ab)?|ab|"
+    r"((?P<not>\b(not|nicht) )?(nach|after))|(ab )?frühe?stens( ab)?|ab|"
     "(from )?earliest( after)?|from",
     dimension(Time),
 )
@@ -843,7 +843,8 @@ _named_number = (
 _rule_named_number = "|".join(
     r"(?P<n_{}>{}\b)".format(n, expr) for n, expr in _named_number
 )
-_rule_named_number = r"({})\s*".format(_rule_named_number)
+# (a number word starts a word: not the "a" of "pizza", not the "one" of "phone")
+_rule_named_number = r"\b({})\s*".format(_rule_named_number)
 
 _durations = [
     (DurationUnit.NIGHTS, r"n[aä]chte?|nights?|[üu]bernachtung"),
